@@ -32,6 +32,7 @@ type cPattern struct {
 	witness func(v string) string // path for a parameter value
 	param   string                // capturing parameter name ("" = none)
 	touched bool
+	group   string // patterns that constrain each other share one porcupine partition
 	// a witness path of a toggled literal may fall back to this untouched pattern when the literal is dead
 }
 
@@ -59,14 +60,33 @@ var c06Toggled = []cPattern{
 	{pat: "/p/x", witness: func(string) string { return "/p/x" }},
 	{pat: "/p/y", witness: func(string) string { return "/p/y" }},
 	{pat: "/p/{id}", witness: func(v string) string { return "/p/" + v }, param: "id"},
+	// both sides of these splits are toggled: nodes are split, pruned and split again during one history
+	{pat: "/s/{id}/author", witness: func(v string) string { return "/s/" + v + "/author" }, param: "id"},
+	{pat: "/s/{id}/abc", witness: func(v string) string { return "/s/" + v + "/abc" }, param: "id"},
+	{pat: "/s/{id}/abd", witness: func(v string) string { return "/s/" + v + "/abd" }, param: "id"},
+	{pat: "/t/alpha", witness: func(string) string { return "/t/alpha" }},
+	{pat: "/t/alps", witness: func(string) string { return "/t/alps" }},
+	{pat: "/t/al", witness: func(string) string { return "/t/al" }},
+	// a twin group: the two patterns differ in the parameter name only, at most one of them may ever be live
+	{pat: "/w/{id}/z", witness: func(v string) string { return "/w/" + v + "/z" }, param: "id", group: "twins:/w/{}/z"},
+	{pat: "/w/{name}/z", witness: func(v string) string { return "/w/" + v + "/z" }, param: "name", group: "twins:/w/{}/z"},
+}
+
+func c06Group(pat string) string {
+	for _, t := range c06Toggled {
+		if t.pat == pat && t.group != "" {
+			return t.group
+		}
+	}
+	return pat
 }
 
 // history event (one client call), recorded at the API boundary.
 type cInput struct {
 	Op     string // handle, remove, removeall, clean, serve, routes, url
 	Pat    string
-	Method string
-	ID     int64 // handler id given to Handle
+	Method string // serve/remove: the method; handle: the methods joined by ","
+	ID     int64  // handler id given to Handle
 	Path   string
 	Value  string
 }
@@ -167,7 +187,8 @@ func (x *c06Run) serve(client int, p cPattern, method, value string) {
 	})
 }
 
-// modelState is the per-pattern sequential state: "DELETE=7;GET=3".
+// The sequential model. One partition holds the patterns of one group (usually
+// a single pattern); its state is the canonical string "pattern|METHOD=id;...".
 func stEncode(m map[string]int64) string {
 	ks := make([]string, 0, len(m))
 	for k := range m {
@@ -190,12 +211,37 @@ func stDecode(s string) map[string]int64 {
 		return m
 	}
 	for _, kv := range strings.Split(s, ";") {
-		i := strings.IndexByte(kv, '=')
+		i := strings.LastIndexByte(kv, '=')
 		var id int64
 		fmt.Sscan(kv[i+1:], &id)
 		m[kv[:i]] = id
 	}
 	return m
+}
+
+// stOf extracts the method->id map of one pattern; stLive lists the patterns with any method.
+func stOf(st map[string]int64, pat string) map[string]int64 {
+	out := map[string]int64{}
+	for k, v := range st {
+		if strings.HasPrefix(k, pat+"|") {
+			out[k[len(pat)+1:]] = v
+		}
+	}
+	return out
+}
+
+func stLive(st map[string]int64) []string {
+	seen := map[string]bool{}
+	var out []string
+	for k := range st {
+		p := k[:strings.LastIndexByte(k, '|')]
+		if !seen[p] {
+			seen[p] = true
+			out = append(out, p)
+		}
+	}
+	sort.Strings(out)
+	return out
 }
 
 func stMethods(m map[string]int64) string {
@@ -218,7 +264,7 @@ var c06Model = porcupine.Model{
 		by := map[string][]porcupine.Operation{}
 		var keys []string
 		for _, op := range history {
-			k := op.Input.(cInput).Pat
+			k := c06Group(op.Input.(cInput).Pat)
 			if _, ok := by[k]; !ok {
 				keys = append(keys, k)
 			}
@@ -233,35 +279,60 @@ var c06Model = porcupine.Model{
 	},
 	Init: func() any { return "" },
 	Step: func(state, input, output any) (bool, any) {
-		st := stDecode(state.(string))
+		all := stDecode(state.(string))
 		in := input.(cInput)
 		out := output.(cOutput)
+		st := stOf(all, in.Pat)
 		switch in.Op {
 		case "handle":
-			_, dup := st[in.Method]
-			if out.Panic != "" && !out.OK {
-				// a call that never returned may or may not have taken effect
+			// atomic: the whole list is installed or nothing is
+			ms := strings.Split(in.Method, ",")
+			reject := false
+			seen := map[string]bool{}
+			for _, m := range ms {
+				if _, dup := st[m]; dup || seen[m] {
+					reject = true
+				}
+				seen[m] = true
 			}
-			if dup {
+			for _, p := range stLive(all) { // a live twin (same group, other pattern) makes the call ambiguous
+				if p != in.Pat {
+					reject = true
+				}
+			}
+			if reject {
 				return !out.OK, state
 			}
 			if !out.OK {
 				return false, state
 			}
-			st[in.Method] = in.ID
-			return true, stEncode(st)
-		case "remove":
-			delete(st, in.Method)
-			return true, stEncode(st)
-		case "removeall", "clean":
-			return true, ""
-		case "serve":
-			if len(st) == 0 {
-				return out.Pattern != in.Pat, state
+			for _, m := range ms {
+				all[in.Pat+"|"+m] = in.ID
 			}
-			if out.Pattern != in.Pat {
+			return true, stEncode(all)
+		case "remove":
+			delete(all, in.Pat+"|"+in.Method)
+			return true, stEncode(all)
+		case "removeall", "clean":
+			for m := range st {
+				delete(all, in.Pat+"|"+m)
+			}
+			return true, stEncode(all)
+		case "serve":
+			// the witness path of a group member is matched by every member of the group
+			live := stLive(all)
+			if len(live) == 0 {
+				for _, t := range c06Toggled {
+					if c06Group(t.pat) == c06Group(in.Pat) && out.Pattern == t.pat {
+						return false, state
+					}
+				}
+				return true, state
+			}
+			if len(live) > 1 || out.Pattern != live[0] {
 				return false, state
 			}
+			st = stOf(all, live[0])
 			if id, ok := st[in.Method]; ok {
 				return out.Kind == mon.KRoute && out.HID == id, state
 			}
@@ -285,8 +356,80 @@ var c06Model = porcupine.Model{
 	},
 }
 
+// splitStorm: many tiny fresh WithLock routers; on each, one goroutine registers a sibling that splits
+// the node of an existing route (a one-time event per node) while others serve that route and build its
+// strict URL. Node splits are the rarest restructuring of the tree, so they get a workload of their own.
+func splitStorm(c *Ctx, n int) {
+	r := c.R
+	shapes := []struct{ keep, keepPath, add string }{
+		{"/r/{id}/author", "/r/7/author", "/r/{id}/abc"},
+		{"/lit/alpha/beta", "/lit/alpha/beta", "/lit/alps"},
+		{"{id}/author", "7/author", "{id}/abd/x"},
+		{`/n/{d:\d+}/author/x`, "/n/7/author/x", `/n/{d:\d+}/a`},
+	}
+	var bad atomic.Int64
+	var firstMsg atomic.Value
+	for i := 0; i < n; i++ {
+		sh := shapes[r.Intn(len(shapes))]
+		env := mon.NewEnv()
+		env.RecordMW = false
+		rt := env.NewRouter("r", mux.WithLock(true))
+		keepH := env.NewHnd(mon.KRoute, sh.keep)
+		rt.Handle(sh.keep, keepH, nil, "GET")
+		var wg sync.WaitGroup
+		start := make(chan struct{})
+		for g := 0; g < 3; g++ {
+			wg.Add(1)
+			go func(g int) {
+				defer wg.Done()
+				<-start
+				for k := 0; k < 6; k++ {
+					if g == 0 {
+						u, err := func() (s string, err error) {
+							defer func() {
+								if p := recover(); p != nil {
+									err = fmt.Errorf("panic: %v", p)
+								}
+							}()
+							return rt.URL(true, sh.keep, map[string]string{"id": "7", "d": "7"})
+						}()
+						if err != nil || u != sh.keepPath {
+							bad.Add(1)
+							firstMsg.CompareAndSwap(nil, fmt.Sprintf("strict URL(%q) = %q, %v while a sibling was registered (expected %q)", sh.keep, u, err, sh.keepPath))
+						}
+					} else {
+						o := mon.Do(rt, mon.Req{Method: "GET", Path: sh.keepPath})
+						if o.Panicked || o.H == nil || o.H.Base != keepH {
+							bad.Add(1)
+							firstMsg.CompareAndSwap(nil, fmt.Sprintf("GET %s not served by its own handler while a sibling was registered: %v", sh.keepPath, obsBrief(o)))
+						}
+					}
+				}
+			}(g)
+		}
+		wg.Add(1)
+		go func() {
+			defer wg.Done()
+			<-start
+			runtime.Gosched()
+			tryHandle(rt, sh.add, env.NewHnd(mon.KRoute, sh.add), []string{"GET"})
+		}()
+		close(start)
+		wg.Wait()
+	}
+	c.EvalN(n)
+	c.ClassN("split_storm_routers", n)
+	if bad.Load() > 0 {
+		c.Violate(fmt.Sprint(firstMsg.Load()), map[string]any{"failures": bad.Load()})
+	}
+}
+
 func runC06(c *Ctx) {
 	r := c.R
+	splitStorm(c, 12)
+	if c.Violated() {
+		return
+	}
 	procs := []int{2, 4, 16}[r.Intn(3)]
 	prev := runtime.GOMAXPROCS(procs)
 	defer runtime.GOMAXPROCS(prev)
@@ -318,8 +461,9 @@ func runC06(c *Ctx) {
 	for _, t := range c06Toggled {
 		if r.Chance(1, 3) {
 			h := env.NewHnd(mon.KRoute, t.pat)
-			x.r.Handle(t.pat, h, nil, "GET")
-			initial[t.pat] = map[string]int64{"GET": h.ID}
+			if ok, _ := tryHandle(x.r, t.pat, h, []string{"GET"}); ok { // the second member of a twin group is refused
+				initial[t.pat] = map[string]int64{"GET": h.ID}
+			}
 		}
 	}
 
@@ -342,10 +486,16 @@ func runC06(c *Ctx) {
 				}
 				switch k := lr.Intn(20); {
 				case k < 10:
-					m := ref.Pick(lr, methods)
+					ms := []string{ref.Pick(lr, methods)}
+					if lr.Chance(1, 3) { // a list: the call must be atomic (all methods installed or none)
+						ms = append(ms, ref.Pick(lr, methods))
+						if lr.Chance(1, 3) {
+							ms = append(ms, ref.Pick(lr, methods))
+						}
+					}
 					h := env.NewHnd(mon.KRoute, t.pat)
-					x.do(w, cInput{Op: "handle", Pat: t.pat, Method: m, ID: h.ID}, func() cOutput {
-						ok, _ := tryHandle(x.r, t.pat, h, []string{m}, mw)
+					x.do(w, cInput{Op: "handle", Pat: t.pat, Method: strings.Join(ms, ","), ID: h.ID}, func() cOutput {
+						ok, _ := tryHandle(x.r, t.pat, h, ms, mw)
 						return cOutput{OK: ok}
 					})
 				case k < 15:
@@ -429,10 +579,26 @@ func runC06(c *Ctx) {
 							}
 						}
 					}
+				case k == 18:
+					// strict URL of an untouched route: must always succeed with its own text, also while its node is being split
+					u := ref.Pick(lr, c06Untouched)
+					want := u.witness("7")
+					got, err := func() (s string, err error) {
+						defer func() {
+							if p := recover(); p != nil {
+								err = fmt.Errorf("panic: %v", p)
+							}
+						}()
+						return x.r.URL(true, u.pat, map[string]string{"id": "7", "x": "7", "w": "7", "n": "7"})
+					}()
+					x.untouched.Add(1)
+					if err != nil || got != want {
+						x.violate(fmt.Sprintf("strict URL of untouched route %q = %q, %v (expected %q)", u.pat, got, err, want))
+					}
 				default:
 					t := ref.Pick(lr, c06Toggled)
 					strict := lr.Chance(2, 3)
-					params := map[string]string{"id": "7", "n": "7"}
+					params := map[string]string{"id": "7", "n": "7", "name": "7"}
 					if strict {
 						x.do(client, cInput{Op: "url", Pat: t.pat}, func() cOutput {
 							_, err := x.r.URL(true, t.pat, params)
@@ -479,7 +645,7 @@ func runC06(c *Ctx) {
 		ops = append(ops, porcupine.Operation{ClientId: e.Client, Input: e.In, Output: e.Out, Call: e.Call, Return: ret})
 		if e.In.Op == "serve" || e.In.Op == "routes" || e.In.Op == "url" {
 			for _, w := range writes {
-				if w.In.Pat == e.In.Pat && w.Call < e.Return && e.Call < w.Return {
+				if c06Group(w.In.Pat) == c06Group(e.In.Pat) && w.Call < e.Return && e.Call < w.Return {
 					overlapByKind[w.In.Op]++
 					c.Class("read_overlapping_" + w.In.Op)
 					if e.In.Op == "serve" {
@@ -540,7 +706,7 @@ func c06Witness(ops []porcupine.Operation, info porcupine.LinearizationInfo) any
 	// find a partition that is illegal on its own
 	by := map[string][]porcupine.Operation{}
 	for _, op := range ops {
-		k := op.Input.(cInput).Pat
+		k := c06Group(op.Input.(cInput).Pat)
 		by[k] = append(by[k], op)
 	}
 	for k, part := range by {
